@@ -300,6 +300,85 @@ def exhaustive(ck, cfg, depth, warm, label, alphabet=ALPHABET):
     return out
 
 
+LOCKS = {"lock", "send_ready", "recv_ready", "send_token", "acks_ready"}
+WHOLE_BODY_LOCKED = {"TransmissionControlObject": ["send", "recv", "close", "enqueue", "dequeue"],
+                     "DataLinkConnection": ["send", "recv", "close", "dequeue", "setsockopt"]}
+ASSIGN_LOCKED = {"DataLinkConnection": ["sendack", "_enqueue_state_established", "poll"]}
+
+
+def lock_regions(ck):
+    """The theorems treat send / recv / dequeue / sendack / close and the state updates of enqueue as
+    atomic steps.  Re-read tco.py of the tree under test: these bodies must be one `with self.<lock>`
+    region (all condition variables built on self.lock), and every assignment to a connection state
+    variable in sendack / _enqueue_state_established / poll must sit inside such a region."""
+    import ast
+    import nfc.llcp.tco as tco
+    tree = ast.parse(open(tco.__file__.replace(".pyc", ".py")).read())
+
+    def is_lock_with(st):
+        return isinstance(st, ast.With) and any(
+            isinstance(i.context_expr, ast.Attribute) and isinstance(i.context_expr.value, ast.Name)
+            and i.context_expr.value.id == "self" and i.context_expr.attr in LOCKS for i in st.items)
+
+    def trivial(st):   # docstring / logging call
+        if not isinstance(st, ast.Expr):
+            return False
+        v = st.value
+        if isinstance(v, ast.Constant):
+            return True
+        return (isinstance(v, ast.Call) and isinstance(v.func, ast.Attribute) and isinstance(v.func.value, ast.Name)
+                and (v.func.value.id == "log" or (v.func.value.id == "self" and v.func.attr in ("log", "err"))))
+
+    def unlocked_assigns(node, locked, out):
+        for ch in ast.iter_child_nodes(node):
+            inside = locked or is_lock_with(ch)
+            if isinstance(ch, (ast.Assign, ast.AugAssign)) and not locked:
+                tg = ch.targets if isinstance(ch, ast.Assign) else [ch.target]
+                for g in tg:
+                    for a in ast.walk(g):
+                        if isinstance(a, ast.Attribute) and isinstance(a.value, ast.Name) and a.value.id == "self":
+                            out.append((a.attr, ch.lineno))
+                        if (isinstance(a, ast.Attribute) and isinstance(a.value, ast.Attribute)
+                                and isinstance(a.value.value, ast.Name) and a.value.value.id == "self"):
+                            out.append((a.value.attr + "." + a.attr, ch.lineno))
+            unlocked_assigns(ch, inside, out)
+
+    seen, conds = 0, set()
+    for cls in tree.body:
+        if not isinstance(cls, ast.ClassDef):
+            continue
+        for fn in cls.body:
+            if not isinstance(fn, ast.FunctionDef):
+                continue
+            if fn.name == "__init__":
+                for st in ast.walk(fn):
+                    if (isinstance(st, ast.Assign) and isinstance(st.value, ast.Call) and ast.unparse(st.value.func) == "threading.Condition"
+                            and [ast.unparse(a) for a in st.value.args] == ["self.lock"]):
+                        conds.add(ast.unparse(st.targets[0]).replace("self.", ""))
+            if fn.name in WHOLE_BODY_LOCKED.get(cls.name, []):
+                seen += 1
+                body = [s for s in fn.body if not trivial(s)]
+                if not (len(body) == 1 and is_lock_with(body[0])):
+                    ck.fail("dlc-critical-section-not-locked", "%s.%s (tco.py:%d) is not a single `with self.<lock>` region"
+                            % (cls.name, fn.name, fn.lineno), {"function": "%s.%s" % (cls.name, fn.name)})
+            if fn.name in ASSIGN_LOCKED.get(cls.name, []):
+                seen += 1
+                out = []
+                unlocked_assigns(fn, False, out)
+                out = [o for o in out if o[0] not in ("log",)]
+                if out:
+                    ck.fail("dlc-critical-section-not-locked", "%s.%s assigns %s outside a `with self.<lock>` region"
+                            % (cls.name, fn.name, out), {"function": "%s.%s" % (cls.name, fn.name)})
+    if not {"send_ready", "recv_ready", "send_token", "acks_ready"} <= conds:
+        ck.fail("dlc-critical-section-not-locked", "condition variables not all built on self.lock: %s" % sorted(conds),
+                {"function": "__init__"})
+    if seen != 13:
+        ck.fail("tie:c05-lock-regions", "expected 13 functions of tco.py, found %d" % seen, {})
+    ck.count("lock-regions-checked", seen)
+    ck.notes.append("lock map of tco.py re-read from the tree: %d functions are single lock regions / assign state only "
+                    "inside lock regions; conditions on self.lock: %s" % (seen, sorted(conds)))
+
+
 def run(ck):
     rng = ck.rng
     ck.rule = ("a case is one history: (RW_A, RW_B, MIU_A, MIU_B, link MIU, aggregation, sequence of steps on two real "
@@ -325,6 +404,7 @@ def run(ck):
     if ck.thorough:
         ck.leanchecker(["NfcVerif.Props.C05"])
     model = Model("drv_c05")
+    lock_regions(ck)
     from sims.dlc_pair import Pair, HandshakeFailed
     try:
         Pair(1, 1, 128, 128, 128, True).cleanup()
